@@ -109,6 +109,23 @@ func pairingRule(p *load.Program, s *oblig.Set) {
 				}
 			}
 		}
+		// Loop may run the statements itself (processInput inlined): its own
+		// calls of Run are then judged like any driver's above, and the flag
+		// they are given must be Loop's
+		if found == 0 && flagP != nil {
+			for _, b := range loop.Blocks {
+				for _, ins := range b.Instrs {
+					if c, ok := ins.(*ssa.Call); ok && strings.HasSuffix(calleeName(&c.Call), "vm.Type).Run") {
+						found++
+						for _, a := range c.Call.Args {
+							if a == ssa.Value(flagP) {
+								good++
+							}
+						}
+					}
+				}
+			}
+		}
 		if flagP != nil && found > 0 && good == found {
 			s.OK("P8", k, p.Pos(loop.Pos()), fmt.Sprintf("%d call(s), each passes %s", found, flagP.Name()))
 		} else {
@@ -313,6 +330,9 @@ func resolveCompile(c *ssa.Call) []compTarget {
 	}
 	var out []compTarget
 	for i, e := range ph.Edges {
+		if strip(e) == ssa.Value(ph) {
+			continue // the variable carried round a loop unchanged
+		}
 		f, isF := strip(e).(*ssa.Function)
 		if !isF {
 			return nil
